@@ -62,10 +62,20 @@ REF_GET_SAMPLES_FOLDED = REF_GET_SAMPLES.replace(
     '    self.v = xp.zeros(num_samples)\n')
 
 
-def run(ctx):
+def stream_time_step(ctx, why=''):
+    """the per-request time step of a stream: sample k at t_start + k*dt, the clock advanced by num_samples*dt, the next request
+    starting one dt after the last sample (C10-D1; C07 states the same -- a tone is registered at its header frequency only if
+    the time axis is continuous across the sub-block requests of a recording)"""
+    had = 'num_samples' in T.INTEGER
     T.INTEGER.add('num_samples')
-    # ---- D1 time array and clock advance
-    ctx.clause = 'D1'
+    try:
+        return _stream_time_step(ctx, why)
+    finally:
+        if not had:
+            T.INTEGER.discard('num_samples')
+
+
+def _stream_time_step(ctx, why):
     # the per-request time step lives in _update_t, or -- when that helper was folded into its only caller -- at the head of
     # get_samples: the first store of each attribute in the request is what is checked
     has_ut = (DS + '_update_t') in {f.short for f in ctx.prog.functions.values()}
@@ -80,16 +90,24 @@ def run(ctx):
     # (values at exit: with no sources the request consists of the time step alone, and a conditional re-use of the old
     #  buffer shows up as a conditional value)
     ts_v, t0_v, v_v = selfattr(r, 'ts'), selfattr(r, 't_start'), selfattr(r, 'v')
-    ctx.formula('FORMULA', 'sample k of a request is at t_start + k*dt', ut, ts_v if ts_v is not None else T.NONE,
+    ctx.formula('FORMULA', 'sample k of a request is at t_start + k*dt' + why, ut, ts_v if ts_v is not None else T.NONE,
                 ctx.spec(ut, 'SEQ(self.t_start, self.dt, num_samples)', I=J), node=ut.node, construct='self.ts')
-    ctx.formula('FORMULA', 'the clock advances by num_samples*dt', ut, t0_v if t0_v is not None else T.NONE,
+    ctx.formula('FORMULA', 'the clock advances by num_samples*dt' + why, ut, t0_v if t0_v is not None else T.NONE,
                 ctx.spec(ut, 'self.t_start + num_samples * self.dt', I=J), node=ut.node, construct='self.t_start')
     nxt = t0_v
     seq = T.as_seq(ts_v) if ts_v is not None else None
     ok = seq is not None and nxt is not None and (seq[0] + seq[2] * seq[1] - nxt).is_zero()
-    ctx.ob('AGREE', 'continuity: the next request starts exactly one dt after the last sample of this one', ut, ok,
+    ctx.ob('AGREE', 'continuity: the next request starts exactly one dt after the last sample of this one' + why, ut, ok,
            {'ts': pretty(ts_v) if ts_v is not None else None, 'next_t_start': pretty(nxt) if nxt is not None else None},
            node=ut.node, construct='ts[n] == new t_start')
+    return ut, r, I, has_ut, selfattr(r, 'v')
+
+
+def run(ctx):
+    T.INTEGER.add('num_samples')
+    # ---- D1 time array and clock advance
+    ctx.clause = 'D1'
+    ut, r, I, has_ut, v_v = _stream_time_step(ctx, '')
     ctx.formula('FORMULA', 'voltage buffer is reset to zeros(num_samples)', ut, v_v if v_v is not None else T.NONE,
                 ctx.spec(ut, 'xp.zeros(num_samples)'), node=ut.node, construct='self.v')
     derived, base = ctx.exp.build(ctx.prog.cls('voltage.data_stream.DataStream'))
